@@ -704,11 +704,28 @@ class Interp:
         self.pin_grid(b)
         return True
 
+    def rotatable(self, n):
+        """HexGrid.rotateIndex documents a TypeError for a location of another, inconsistent grid: only blocks whose
+        children sit on the block's own pin grid (or on none) are rotated.  (replaceBlockWithBlock hands over components
+        that sit on the temporary copy's grid, a removed pin keeps the cells of the grid it left.)"""
+        multi = self.A.grids.MultiIndexLocation
+        for b in ([n] if n.cls == "B" else self.kids(n)):
+            g = b.obj.spatialGrid
+            for c in self.kids(b):
+                loc = c.obj.spatialLocator
+                if loc is None:
+                    continue
+                if loc.grid is not None and loc.grid is not g:
+                    return False
+                if isinstance(loc, multi) and any(cell.grid is not loc.grid or cell.grid is not g for cell in loc):
+                    return False
+        return True
+
     def op_rotate(self, r):
         """HexBlock.rotate / HexAssembly.rotate by a multiple of 60 degrees (rebuilds the children's locations)."""
         import math
 
-        n = self.pick([p for p in self.nodes if p.cls in ("A", "B") and p.geom == "hex"], r["t"])
+        n = self.pick([p for p in self.nodes if p.cls in ("A", "B") and p.geom == "hex" and self.rotatable(p)], r["t"])
         if n is None:
             return False
         n.obj.rotate((1 + r["a"] % 5) * math.pi / 3.0)
